@@ -346,7 +346,7 @@ pub fn main(tier: Tier, replay: Option<String>) -> i32 {
                     bounds,
                     reference: Box::new(move |s| ref_prolonged(&mc, &repl, s)),
                     used_buffer_len: 3,
-                    padded_len: tier.pick(2, 3),
+                    padded_len: tier.pick(1, 3),
                 },
                 Strategy::Dfs,
                 Some(tier.pick(30, 900)),
@@ -383,7 +383,7 @@ pub fn main(tier: Tier, replay: Option<String>) -> i32 {
                         )
                     }),
                     used_buffer_len: 3,
-                    padded_len: tier.pick(2, 3),
+                    padded_len: tier.pick(1, 3),
                 },
                 Strategy::Dfs,
                 Some(tier.pick(30, 900)),
